@@ -64,7 +64,7 @@ def features(case):
 def style_fn(c):
     import hashlib
     h = int(hashlib.md5(json.dumps(c['doc'], sort_keys=True).encode()).hexdigest(), 16)
-    if h % 4 == 1 and mapcase.yarrrml_ok(c):
+    if (h % 4 == 1 or c.get('spelling') == 'yarrrml') and mapcase.yarrrml_ok(c):
         return mapcase.Style(vocab='yarrrml')
     if h % 4 in (2, 3):
         st = mapcase.Style(shortcut=False)
@@ -79,7 +79,17 @@ def run(ctx, res):
                 'distinct = distinct case; non-trivial = non-empty prescribed result')
     # spellings: a quarter of the cases YARRRML can express is written in YARRRML (graphs as YAML lists), a quarter of the others with one
     # shared subject-map resource per distinct subject map
-    family.run_family(ctx, res, [gen_graph_case(ctx.rng) for _ in range(ctx.scale(160, 4000))], features, style_fn=style_fn)
+    cases = [gen_graph_case(ctx.rng) for _ in range(ctx.scale(160, 4000))]
+    # directed: graph maps on the subject map AND on some (not all) of several predicate-object maps, N-QUADS, always written in YARRRML
+    found, tries = 0, 0
+    while found < ctx.scale(8, 80) and tries < 3000:
+        tries += 1
+        g = gen_graph_case(ctx.rng)
+        if mapcase.yarrrml_ok(g) and g['cfg'].get('nquads') and not family.triggers(g) and \
+                any(t.get('sgraphs') and len(t.get('poms', [])) >= 2 and any(p.get('graphs') for p in t['poms']) and any(not p.get('graphs') for p in t['poms']) for t in g['doc']):
+            g['spelling'] = 'yarrrml'
+            cases.append(g); found += 1
+    family.run_family(ctx, res, cases, features, style_fn=style_fn)
 
 
 def replay(ctx, res, payload):
